@@ -117,7 +117,15 @@ pub fn one(drv: &mut Driver, rep: &mut Report, rt: &tokio::runtime::Runtime, str
     if idx == 0 && deliveries > 0 { rep.sample(json!({"stream": stream, "request": req, "impl": format!("{:?}", got), "model+spec": ans})); }
 }
 
-fn id_of(k: u8) -> MsgId { let mut b = [k; 32]; b[0] = 0xA0 + k; MsgId::from(b) }
+/// the id alphabet is deliberately made of NEAR ids: 0 and 1 differ only in the last byte, 2 differs from 0 only in
+/// byte 15 (the boundary between the two 16-byte halves), 3 only in the first byte; higher ids are unrelated.
+/// An id comparison or hash that drops part of the id makes two of them collide.
+fn id_of(k: u8) -> MsgId {
+    let mut b = [0u8; 32];
+    for (i, x) in b.iter_mut().enumerate() { *x = 0xA0 ^ (i as u8).wrapping_mul(7); }
+    match k { 0 => {} 1 => b[31] ^= 0x01, 2 => b[15] ^= 0x80, 3 => b[0] ^= 0x01, _ => { b = [k; 32]; b[0] = 0xA0 + k; } }
+    MsgId::from(b)
+}
 pub fn ask_frame(id: u8, ttl: u32) -> Vec<u8> { allocate_message(&id_of(id), ttl, 0, &[]) }
 pub fn pub_frame(id: u8, ttl: u32, payload: u8) -> Vec<u8> { allocate_message(&id_of(id), ttl, payload as u16, &[payload]) }
 
@@ -186,8 +194,8 @@ pub fn run(o: &Opts, drv: &mut Driver, rep: &mut Report, prop: &str) {
     for _ in 0..n {
         let len = rng.gen_range(3..if thorough { 60 } else { 40 });
         let ops: Vec<Op> = (0..len).map(|_| match rng.gen_range(0..100) {
-            0..=34 => Op::Frame(rng.gen_range(0..NCONN), ask_frame(rng.gen_range(0..3), [0, 1, 2, 5, 70000][rng.gen_range(0..5)])),
-            35..=64 => Op::Frame(rng.gen_range(0..NCONN), pub_frame(rng.gen_range(0..3), [0, 1, 2, 5, 65537][rng.gen_range(0..5)], rng.gen_range(1..4))),
+            0..=34 => Op::Frame(rng.gen_range(0..NCONN), ask_frame(rng.gen_range(0..5), [0, 1, 2, 5, 70000][rng.gen_range(0..5)])),
+            35..=64 => Op::Frame(rng.gen_range(0..NCONN), pub_frame(rng.gen_range(0..5), [0, 1, 2, 5, 65537][rng.gen_range(0..5)], rng.gen_range(1..4))),
             65..=89 => Op::Tick(rng.gen_range(0..4)),
             90..=93 => Op::Service(pub_frame(rng.gen_range(0..3), rng.gen_range(0..3), rng.gen_range(1..4))),
             94..=95 => Op::Service(ask_frame(rng.gen_range(0..3), 1)),                                  // exactly a header: no payload
